@@ -742,6 +742,15 @@ def child_main(root: str, ops: list, seed: int, opts: dict | None = None) -> dic
     sys.stdout = sink
     sys.stderr = sink
     install_seams(sim)
+    if opts.get("nofile_headroom"):
+        # a tight descriptor budget: a descriptor leaked per operation becomes EMFILE within one history
+        try:
+            import resource
+            used = len(os.listdir("/proc/self/fd"))
+            _soft, hard = resource.getrlimit(resource.RLIMIT_NOFILE)
+            resource.setrlimit(resource.RLIMIT_NOFILE, (min(hard, used + int(opts["nofile_headroom"])), hard))
+        except Exception:  # noqa: BLE001
+            pass
     outcomes = []
     sigs = []
     for i, op in enumerate(ops):
